@@ -494,7 +494,9 @@ def run(ctx):
             steps = (slow_steps if slow else fast_steps // 4)
             L = c12.ma_len(cfg)
             P = max(4 * L + 7, steps // 11)
-            W = 3 * L + 6
+            # a recursive average forgets its past only geometrically: prime the fresh instance long enough for (1 - 2/(n+1))^W < 1e-30
+            rec = any(v[0] == "ma" and v[1] in ("ema", "dma", "tma", "dema", "tema", "rma", "wsma", "vidya") for v in cfg.values())
+            W = 40 * (L + 1) if rec else 3 * L + 6
             icases.append(SoakInd(t, sets, r.range(1, 2 ** 40), P, 100.0, steps, W, sample_positions(steps, P, L), "soak-indicator",
                                   fresh=fresh_rules(name)))
     ctx.run_suite("soak-indicators", icases, HEADER, per_shard=1, theorem="Properties/C07.v")
@@ -540,6 +542,36 @@ def run(ctx):
             for sets in ([("af_step", "0.0005"), ("af_max", "0.2")], [("af_step", "0.001"), ("af_max", "0.5")]):
                 tcases.append(cls(t, sets, cs[0], cs[1:], "long-trend-slow", {"regime": "monotone-legs"}, with_spec=False))
     ctx.run_suite("long-trends", tcases, im.HEADER, per_shard=2, theorem="Properties/C07.v")
+    # constant input after a few huge values: the output may carry a constant rounding residue of the huge values (within the
+    # allowance) but must not keep GROWING - a method whose error is re-added at every step drifts without bound
+    from ..suites import numeric
+    from ..suites.action import Simple
+    dcases = []
+    huge = [1e17, 12345678901234568.0, 12345678901234568.0]
+    for name in ["SMA", "WMA", "SWMA", "TRIMA", "HMA", "LinReg", "EMA", "DMA", "TMA", "DEMA", "TEMA", "RMA", "WSMA", "Integral", "StDev",
+                 "MeanAbsDev", "LinearVolatility", "Vidya"]:
+        for n in (2, 3, 4, 5):
+            if name in ("HMA", "LinReg", "StDev") and n < 2:
+                continue
+            xs = huge + [1.0] * (6 * n + 40)
+            line = numeric.scalar_case(name, n, 1.0, xs, "drift-witness", with_spec=False).line()
+
+            def orc(io, name=name, n=n, xs=xs):
+                if not io or io[0] != 0:
+                    return None
+                ys = [core.bits2f(v) for v in io[1:]]
+                tail = ys[-12:]
+                if any(y != y or abs(y) == float("inf") for y in tail):
+                    return None
+                d = [tail[i + 1] - tail[i] for i in range(len(tail) - 1)]
+                same = all(x > 1e-6 for x in d) or all(x < -1e-6 for x in d)
+                # a steady increment (not the geometric fading of a recursive average)
+                if same and min(abs(x) for x in d) >= 0.5 * max(abs(x) for x in d):
+                    return ["%s(%d) keeps growing on constant input: after %d equal inputs the last outputs are %r, %r, %r (%+.4g per step)" % (
+                        name, n, len(xs) - 3, tail[-3], tail[-2], tail[-1], d[-1])]
+                return []
+            dcases.append(Simple(line, None, "drift-witness", oracle=orc, extra={"entry": name, "length": n}))
+    ctx.run_suite("drift-on-constant-input", dcases, HEADER, model=False, theorem="Properties/C07.v (C07_wma_drift_refuted, C07_linreg_drift_refuted, C07_swma_drift_refuted)")
     # one trend that lasts longer than any 16-bit counter (70000 bars on one side), then a reversal: the indicators that keep
     # integer counters / trend lengths (debug build: an overflowing counter panics; signals recomputed by the C06 rule oracle)
     ucases = []
